@@ -264,10 +264,10 @@ def c04_row(row, ref_map, qry_map, params, frag=None):
                 if lo < c < hi and (i + 1) not in all_ql and fragment_has(row, i + 1, frag):
                     bad.append('no_query_label_inside_the_span_unaccounted_for')
                     break
-        if abs(seg_total - seg.segmentScore) > 1e-6 * max(1.0, abs(seg_total)):
+        if abs(seg_total - seg.segmentScore) > 1e-9 * max(1.0, abs(seg_total)):      # (sums of about a hundred doubles: rounding noise stays below 1e-12)
             bad.append('segment_score_is_configured_score_of_its_positions')
         total += seg_total
-    if abs(total - row.confidence) > 1e-6 * max(1.0, abs(total)):
+    if abs(total - row.confidence) > 1e-9 * max(1.0, abs(total)):
         bad.append('confidence_is_sum_over_segments')
     return sorted(set(bad)), total
 
